@@ -716,11 +716,12 @@ func (x *Exec) mapDom(st *State, mt types.Type) *HArr {
 	if h, ok := st.heap[key]; ok {
 		return h
 	}
-	base := fmt.Sprintf("%s@%d", sanitize(key), st.epoch)
+	ep, _ := st.epochFor(key)
+	base := fmt.Sprintf("%s@%d", sanitize(key), ep)
 	srt := "(Array " + mapKeySort(m) + " Bool)"
 	x.decls.Const(base, "(Array Int "+srt+")")
 	// in the heap this base denotes, a map that contains a key is not empty (length base of the same epoch)
-	lbase := fmt.Sprintf("%s@%d", sanitize("ML."+typeName(mt)), st.epoch)
+	lbase := fmt.Sprintf("%s@%d", sanitize("ML."+typeName(mt)), ep)
 	x.decls.Const(lbase, "(Array Int Int)")
 	x.decls.Pat("sel2:"+base, func(args []string) string {
 		return sImp(sSel(sSel(base, args[0]), args[1]), sLe("1", sSel(lbase, args[0])))
@@ -736,7 +737,8 @@ func (x *Exec) mapValArr(st *State, mt types.Type, c Comp) *HArr {
 	if h, ok := st.heap[key]; ok {
 		return h
 	}
-	base := fmt.Sprintf("%s@%d", sanitize(key), st.epoch)
+	ep, epAl := st.epochFor(key)
+	base := fmt.Sprintf("%s@%d", sanitize(key), ep)
 	srt := "(Array " + mapKeySort(m) + " " + c.Sort + ")"
 	x.decls.Const(base, "(Array Int "+srt+")")
 	h := &HArr{key: key, sort: srt, base: base}
@@ -752,9 +754,9 @@ func (x *Exec) mapValArr(st *State, mt types.Type, c Comp) *HArr {
 		})
 	}
 	// value well-typedness
-	if x.rangeFact("t", c, st.epochAlloc) != "true" && c.Role == "" {
-		al := st.epochAlloc
-		if st.epoch < 0 {
+	if x.rangeFact("t", c, epAl) != "true" && c.Role == "" {
+		al := epAl
+		if ep < 0 {
 			al = st.alloc
 		}
 		x.decls.Pat("sel2:"+base, func(args []string) string {
@@ -773,7 +775,8 @@ func (x *Exec) mapLenArr(st *State, mt types.Type) *HArr {
 	if h, ok := st.heap[key]; ok {
 		return h
 	}
-	base := fmt.Sprintf("%s@%d", sanitize(key), st.epoch)
+	ep, _ := st.epochFor(key)
+	base := fmt.Sprintf("%s@%d", sanitize(key), ep)
 	x.decls.Const(base, "(Array Int Int)")
 	x.decls.Pat("sel1:"+base, func(args []string) string {
 		t := sSel(base, args[0])
